@@ -5,7 +5,7 @@ import logging
 import weakref
 from typing import TYPE_CHECKING
 
-from claripy import Or, backends
+from claripy import Or, backends, false
 from claripy.ast import Base
 from claripy.errors import BackendError, UnsatError
 
@@ -284,8 +284,11 @@ class CompositeFrontend(ConstrainedFrontend):
         for names, set_constraints in split:
             if names == {"CONCRETE"}:
                 try:
-                    if any(backends.concrete.convert(c) is False for c in set_constraints):
+                    # keep them in our constraint list as well: combine() and friends rebuild solvers from it
+                    falsified = [c for c in set_constraints if backends.concrete.convert(c) is False]
+                    if falsified:
                         self._unsat = True
+                        child_added += falsified
                 except BackendError:
                     unsure.extend(set_constraints)
             else:
@@ -473,6 +476,10 @@ class CompositeFrontend(ConstrainedFrontend):
             return self._merge_with_ancestor(common_ancestor, merge_conditions)
 
         log.debug("Merging %s with %d other solvers.", self, len(others))
+        # a solver that is unsatisfiable because of a concrete false constraint (which no child holds) has no models
+        merge_conditions = [
+            false() if s._unsat else c for s, c in zip([self, *others], merge_conditions, strict=False)
+        ]
         merged = self.blank_copy()
         common_solvers = self._shared_solvers(others)
         common_ids = {id(s) for s in common_solvers}
@@ -514,4 +521,10 @@ class CompositeFrontend(ConstrainedFrontend):
         return True, merged
 
     def split(self):
-        return [s.branch() for s in self._solver_list]
+        results = [s.branch() for s in self._solver_list]
+        if self._unsat:
+            # unsatisfiable because of a concrete false constraint, which no child holds
+            falsified = self._template_frontend.blank_copy()
+            falsified.add([false()])
+            results.append(falsified)
+        return results
